@@ -302,6 +302,14 @@ def check_tree(ctx, tr, rng, k, quick):
                         routed = [e for e in w.log if e[1] == w.raised_file and e[0] in ('match', 'skip')]
                         if len(routed) != 1:
                             ctx.disagree('a file whose validation raised is not routed to exactly one of on_match/on_skip', dict(wit, routed=routed))
+                        elif routed[0][0] != 'skip':
+                            # a file that could not be validated is not a match, whatever happened to the file before it
+                            ctx.disagree('a file whose validation raised is reported as a match', dict(wit, routed=routed))
+                        else:
+                            base_matched = ('match', w.raised_file) in base_log
+                            if w.get_skipped() != skipped0 + (1 if base_matched else 0):
+                                ctx.disagree('get_skipped() does not count a file whose validation raised',
+                                             dict(wit, skipped=w.get_skipped(), undisturbed_run=skipped0, was_a_match=base_matched))
                     one_file_each(ctx, w.log, wit)
             else:
                 if hasattr(w, 'raised_kind') and exc is None:
@@ -414,7 +422,7 @@ def thread_kills(ctx, root, pat, excl, flags, R, wit0, rng, n):
                          dict(wit0, yields_at_kill=y0, got=len(out), full=len(R)))
 
 
-OPS = ('match', 'imatch', 'abandon', 'kill', 'reset', 'is_aborted')
+OPS = ('match', 'imatch', 'abandon', 'kill', 'reset', 'is_aborted', 'create', 'consume')
 
 
 def sequences(ctx, tr, maxlen):
@@ -433,15 +441,30 @@ def sequences(ctx, tr, maxlen):
                 return
             w = fresh(root, '*', '', WM.RECURSIVE | WM.HIDDEN)
             aborted = False
+            pending = []
+            runs_done = 0
             ctx.evals()
             ctx.count('call_sequences')
             for si, op in enumerate(seq):
                 r0 = w.resets
-                if op in ('match', 'imatch'):
+                if op == 'create':
+                    # an iterator that is created now and consumed later: its run (reset, counter, result) happens when it is consumed
+                    pending.append(w.imatch())
+                    ok = True
+                elif op == 'consume':
+                    if not pending:
+                        continue
+                    got = list(pending.pop(0))
+                    runs_done += 1
+                    exp = [] if aborted else R
+                    ok = got == exp and (aborted or w.get_skipped() == skipped)
+                elif op in ('match', 'imatch'):
+                    runs_done += 1
                     got = w.match() if op == 'match' else list(w.imatch())
                     exp = [] if aborted else R
                     ok = got == exp and w.resets == r0 + 1 and (aborted or w.get_skipped() == skipped)
                 elif op == 'abandon':
+                    runs_done += 1
                     it = w.imatch()
                     first = next(it, None)
                     it.close()
@@ -461,6 +484,10 @@ def sequences(ctx, tr, maxlen):
                     ctx.disagree(f'call history disagrees with the sequential model at `{op}`',
                                  {'tree': tr.spec, 'sequence': list(seq), 'failing_step': si, 'model_aborted': aborted})
                     break
+            else:
+                if not (runs_done <= w.resets <= runs_done + len(pending)):
+                    ctx.disagree('on_reset is not called once per run',
+                                 {'tree': tr.spec, 'sequence': list(seq), 'runs': runs_done, 'unconsumed_iterators': len(pending), 'resets': w.resets})
             if 'kill' in seq:
                 ctx.mark_nontrivial(seq)
 
